@@ -15,6 +15,7 @@ pub mod c07;
 pub mod c08;
 pub mod c09;
 pub mod c10;
+pub mod c11;
 pub mod c12;
 pub mod c13;
 
@@ -45,6 +46,7 @@ pub fn lookup(id: &str) -> Option<Prop> {
         "C08" => Prop { id: "C08", run: c08::run, rule: c08::rule, exhaustive: none, assumptions: no_assumptions },
         "C09" => Prop { id: "C09", run: c09::run, rule: c09::rule, exhaustive: none, assumptions: no_assumptions },
         "C10" => Prop { id: "C10", run: c10::run, rule: c10::rule, exhaustive: none, assumptions: no_assumptions },
+        "C11" => Prop { id: "C11", run: c11::run, rule: c11::rule, exhaustive: none, assumptions: no_assumptions },
         "C12" => Prop { id: "C12", run: c12::run, rule: c12::rule, exhaustive: |_| Some(true), assumptions: no_assumptions },
         "C13" => Prop { id: "C13", run: c13::run, rule: c13::rule, exhaustive: |_| Some(true), assumptions: no_assumptions },
         _ => return None,
@@ -57,6 +59,9 @@ pub fn replay(_id: &str, case: &Value) -> Option<Result<(), String>> {
         return Some(c.eval());
     }
     if let Some(r) = c07::replay(case) {
+        return Some(r);
+    }
+    if let Some(r) = c11::replay(case) {
         return Some(r);
     }
     if let Some(r) = c12::replay(case) {
